@@ -123,7 +123,7 @@ func (g *TreeGen) item(depth int) *Node {
 		}
 		for i := 0; i < n; i++ {
 			if r.Intn(20) == 0 {
-				items = append(items, &Node{K: "nil"})
+				items = append(items, &Node{K: "nil", T: []string{"", "", "stmt", "grp"}[r.Intn(4)]})
 			} else {
 				items = append(items, g.stmt(depth-1))
 			}
@@ -149,7 +149,7 @@ func (g *TreeGen) stmt(depth int) *Node {
 	items := []*Node{}
 	for i := 0; i < n; i++ {
 		if g.r.Intn(25) == 0 {
-			items = append(items, &Node{K: "nil"}) // Add(nil) inside a statement
+			items = append(items, &Node{K: "nil", T: []string{"", "stmt", "grp"}[g.r.Intn(3)]}) // Add(nil) inside a statement: untyped, nil *Statement, nil *Group
 			continue
 		}
 		items = append(items, g.item(depth))
@@ -187,7 +187,7 @@ func templates() [][]*Node {
 			stm(grp("if", stm(idn("x"), opn(">"), lit("0"))), grp("block", stm(q("fmt", "Println"), grp("call", stm(lit("\"s\"")), stm(idn("x"))))), kwn("else"), grp("block", stm(grp("return")))),
 			stm(grp("for", stm(idn("i"), opn(":="), lit("0")), stm(idn("i"), opn("<"), lit("3")), stm(idn("i"), opn("++"))), grp("block", stm(kwn("continue")))),
 		))},
-		{stm(kwn("type"), idn("T"), grp("struct", stm(idn("A"), idn("int"), tagNode(map[string]string{"json": "a"})), stm(idn("B"), grp("index"), idn("string")))),
+		{stm(kwn("type"), idn("T"), grp("struct", stm(idn("A"), idn("int"), tagNode(map[string]string{"json": "a", "JSON": "A", "Json": "b", "xml": "x,omitempty"})), stm(idn("B"), grp("index"), idn("string")))),
 			stm(kwn("func"), grp("params", stm(idn("t"), opn("*"), idn("T"))), idn("M"), grp("params", stm(idn("v"), grp("map", stm(idn("string"))), idn("int"))), grp("params", stm(idn("int")), stm(idn("error"))), grp("block",
 				stm(grp("switch", stm(idn("v"), grp("index", stm(lit("\"k\""))))), grp("block",
 					stm(grp("case", stm(lit("1")), stm(lit("2"))), grp("block", stm(grp("return", stm(lit("1")), stm(idn("nil")))))),
@@ -242,7 +242,7 @@ func damage(r *rand.Rand, t *SpecTable, body []*Node) []*Node {
 			n.Name = alts[r.Intn(len(alts))]
 		}
 	case 5: // a nil item inside a statement (documented to vanish)
-		n.Items = append(n.Items[:i:i], append([]*Node{{K: "nil"}}, n.Items[i:]...)...)
+		n.Items = append(n.Items[:i:i], append([]*Node{{K: "nil", T: []string{"", "stmt", "grp"}[r.Intn(3)]}}, n.Items[i:]...)...)
 	case 4: // stray token
 		n.Items = append(n.Items[:i:i], append([]*Node{opn(genOps[r.Intn(len(genOps))])}, n.Items[i:]...)...)
 	}
